@@ -275,6 +275,32 @@ func buildMsg(small bool) *dns.Msg {
 	return m
 }
 
+// shapeMsg: the small message rearranged.
+func shapeMsg(shape string) *dns.Msg {
+	m := buildMsg(true)
+	opt := m.Extra[len(m.Extra)-1]
+	rest := append([]dns.RR(nil), m.Extra[:len(m.Extra)-1]...)
+	switch shape {
+	case "opt-first":
+		m.Extra = append([]dns.RR{opt}, rest...)
+	case "opt-middle+tsig":
+		ts := &dns.TSIG{}
+		rw.Populate(ts, dns.TypeTSIG)
+		ts.Hdr.Class, ts.Hdr.Ttl = dns.ClassANY, 0
+		h := len(rest) / 2
+		m.Extra = append(append(append([]dns.RR{}, rest[:h]...), opt), rest[h:]...)
+		m.Extra = append(m.Extra, ts)
+	case "two-questions+empty-sections":
+		m.Question = append(m.Question, dns.Question{Name: "Other.Example.ORG.", Qtype: dns.TypeTXT, Qclass: dns.ClassCHAOS})
+		m.Answer, m.Ns = nil, []dns.RR{}
+		m.Extra = []dns.RR{opt}
+	case "no-opt":
+		m.Rcode = dns.RcodeNameError
+		m.Extra = rest
+	}
+	return m
+}
+
 // ---------------------------------------------------------------------------
 // cases
 
@@ -345,6 +371,20 @@ func cases() []tcase {
 					return nil, err
 				}
 				return &msgObj{m, ct}, nil
+			}})
+	}
+	// small messages in other shapes: where the OPT sits in the additional section, a TSIG after it,
+	// two questions, empty sections, no OPT at all
+	for _, shape := range []string{"opt-first", "opt-middle+tsig", "two-questions+empty-sections", "no-opt"} {
+		shape := shape
+		cs = append(cs, tcase{name: "Msg/small/" + shape,
+			build: func() object { return &msgObj{shapeMsg(shape), false} },
+			unpack: func(buf []byte) (object, error) {
+				m := new(dns.Msg)
+				if err := m.Unpack(buf); err != nil {
+					return nil, err
+				}
+				return &msgObj{m, false}, nil
 			}})
 	}
 	// a source without question section, copied into a used message
@@ -816,7 +856,8 @@ func record(out string, episodes int) {
 	smallTo := small
 	smallTo.name = "Msg/small/CopyTo"
 	smallTo.build = func() object { return &msgObj{buildMsg(true), true} }
-	cs = append(cs[:len(cs)-3], small, smallTo) // the full-size messages and the value-equality case are for the replay tier
+	shapes := append([]tcase(nil), cs[len(cs)-5:len(cs)-1]...)
+	cs = append(append(cs[:len(cs)-7], small, smallTo), shapes...) // the full-size messages and the value-equality case are for the replay tier
 	ro := []string{"Pack", "Len", "String", "IsDuplicate", "Copy", "Sign", "Verify"}
 	seen := map[string]bool{}
 	var keep [][]byte // scribbled and replaced buffers stay referenced: their addresses must not be reused within an episode
